@@ -1,5 +1,7 @@
 from __future__ import annotations
 from typing import TYPE_CHECKING, Any, Mapping
+import keyword
+import unicodedata
 import smoothmath._private.expression.variable as va
 import smoothmath._private.errors as er
 if TYPE_CHECKING:
@@ -78,11 +80,29 @@ class Point:
     def _to_string(
         self: Point
     ) -> str:
-        equations_string = ", ".join(
-            f'{variable_name}={value}'
+        if all(_can_be_written_as_keyword(name) for name in self._coordinates):
+            equations_string = ", ".join(
+                f'{variable_name}={value}'
+                for variable_name, value in self._coordinates.items()
+            )
+            return f"Point({equations_string})"
+        entries_string = ", ".join(
+            f'"{variable_name}": {value}'
             for variable_name, value in self._coordinates.items()
         )
-        return f"Point({equations_string})"
+        return f"Point(**{{{entries_string}}})"
+
+
+def _can_be_written_as_keyword(
+    name: str
+) -> bool:
+    # Keyword syntax cannot spell reserved words or names that do not start like an
+    # identifier, and it NFKC-normalizes what it is given (so "\u00b5" would come back as "\u03bc").
+    return (
+        name.isidentifier() and
+        not keyword.iskeyword(name) and
+        unicodedata.normalize("NFKC", name) == name
+    )
 
 
 def point_on_number_line(
